@@ -455,7 +455,7 @@ def match_known(f, prop, known):
             continue
         if k.get('kind') and k['kind'] != f['kind']:
             continue
-        if k.get('expr') and k['expr'] not in f['expr']:
+        if k.get('expr') and re.sub(r'\s+', '', k['expr']) != re.sub(r'\s+', '', f['expr']):
             continue
         return k
     return None
